@@ -26,8 +26,60 @@ def run(cmd, cwd, env=None, timeout=3600):
     return p.returncode, p.stdout
 
 
+def run_checks(patch, checks):
+    st, o = run("git status --porcelain --untracked-files=no", "/repo")
+    if o.strip():
+        print("/repo is not clean, refusing"); return None
+    caught = {}
+    try:
+        rc, o = run(["git", "apply", patch], "/repo")
+        if rc != 0:
+            print("patch does not apply to /repo:", o); return None
+        for c in checks:
+            rc, o = run(["/verif/check", c], "/verif", {"VF_EVIDENCE_DIR": "/verif/work/seeded-evidence", "VF_REPLAY_DIR": "/verif/work/seeded-replays"})
+            lines = [l[:300] for l in o.splitlines() if l.startswith("VIOLATION")]
+            caught[c] = {"exit": rc, "violations": [l.split("signature=")[1].split(" ::")[0] if "signature=" in l else l for l in lines][:8], "first": lines[0] if lines else ""}
+            print(f"check {c}: exit {rc}, {len(lines)} violation lines", "| " + lines[0][:220] if lines else "")
+    finally:
+        run("git checkout -- .", "/repo")
+    return caught
+
+
+def recheck(a):
+    """tools/seeded.py --recheck <name> [--checks ..] [--note "what was strengthened"]: run the checks again
+    against an already filed change and record the new outcome next to the first one."""
+    name = a[0]
+    dest = os.path.join("/verif/seeded", name)
+    meta = json.load(open(os.path.join(dest, "meta.json")))
+    checks = [meta["property"]]
+    note = ""
+    i = 1
+    while i < len(a):
+        if a[i] == "--checks":
+            checks = a[i + 1].split(","); i += 2
+        elif a[i] == "--note":
+            note = a[i + 1]; i += 2
+        else:
+            i += 1
+    caught = run_checks(os.path.join(dest, "patch.diff"), checks)
+    if caught is None:
+        return 2
+    if "first_run" not in meta:
+        meta["first_run"] = {"checks": meta.get("checks"), "caught_by": meta.get("caught_by")}
+    meta["checks"] = caught
+    meta["caught_by"] = [c for c, v in caught.items() if v["exit"] == 1]
+    if note:
+        meta["strengthened"] = note
+    with open(os.path.join(dest, "meta.json"), "w") as f:
+        json.dump(meta, f, indent=1)
+    print(name, "caught_by =", meta["caught_by"])
+    return 0
+
+
 def main():
     a = sys.argv[1:]
+    if a and a[0] == "--recheck":
+        return recheck(a[1:])
     prop, name, out, wt = a[0], a[1], a[2], a[3]
     checks = [prop]
     needs = ""
@@ -83,21 +135,9 @@ def main():
     confirmed = suite_ok and demo_fails_with and demo_passes_without
     meta["confirmed"] = confirmed
     # --- 2. run the checks against /repo with the patch
-    st, o = run("git status --porcelain --untracked-files=no", "/repo")
-    if o.strip():
-        print("/repo is not clean, refusing"); return 2
-    caught = {}
-    try:
-        rc, o = run(["git", "apply", patch], "/repo")
-        if rc != 0:
-            print("patch does not apply to /repo:", o); return 2
-        for c in checks:
-            rc, o = run(["/verif/check", c], "/verif", {"VF_EVIDENCE_DIR": "/verif/work/seeded-evidence", "VF_REPLAY_DIR": "/verif/work/seeded-replays"})
-            lines = [l[:300] for l in o.splitlines() if l.startswith("VIOLATION")]
-            caught[c] = {"exit": rc, "violations": [l.split("signature=")[1].split(" ::")[0] if "signature=" in l else l for l in lines][:8], "first": lines[0] if lines else ""}
-            print(f"check {c}: exit {rc}, {len(lines)} violation lines", "| " + lines[0][:220] if lines else "")
-    finally:
-        run("git checkout -- .", "/repo")
+    caught = run_checks(patch, checks)
+    if caught is None:
+        return 2
     meta["checks"] = caught
     meta["caught_by"] = [c for c, v in caught.items() if v["exit"] == 1]
     # --- 3. file it
